@@ -15,6 +15,11 @@
 //   phase <pseed> <nsess> <burst> <hlat_us> <failpct> <closepct> <pushes> <act>
 //         act: 0 none | 1 DrainSends (long ctx) at a random point | 2 DrainSends with a
 //              tiny ctx (usually expires) | 3 Stop at a random point
+//   gate <drain 0|1> <wait_ms>
+//         steered admission window: a new session whose ID() blocks (submit asks ID() for the shard,
+//         after the admission fence, when there is more than one shard); one SEND is handed over,
+//         then (drain=1) DrainSends runs while the submit is parked; after <wait_ms> or when the
+//         drain returned the gate opens.  All waits are verdict-neutral.
 //   fin   -> DrainSends (watchdog), Stop, snapshot of which sessions are still open
 // output of phase/fin = the events logged since the previous op (see ev()).
 package main
@@ -48,6 +53,24 @@ func init() {
 // ------------------------------------------------------------- generator ---
 
 func genC28(g *Gen) {
+	// steered cases (a parked submit inside the admission window), with and without a drain
+	for k := 0; k < 6; k++ {
+		g.Case()
+		g.Count("case:steered-admission-window")
+		g.Op("cfg", "%d %d %d %d %d", g.R.Range(2, 4), 4096, []int{1, 4, 16}[g.R.Intn(3)], []int{-1, 0, 200}[g.R.Intn(3)], 0)
+		if g.R.Chance(50) {
+			g.Op("phase", "%d %d %d %d %d %d %d %d", g.R.U64()>>1, g.R.Range(1, 3), g.R.Range(1, 10), 50, 0, 0, 0, 0)
+		}
+		if k%3 == 2 {
+			g.Count("steered:control-no-drain")
+			g.Op("gate", "0 %d", 100)
+			g.Op("phase", "%d %d %d %d %d %d %d %d", g.R.U64()>>1, 2, 5, 0, 0, 0, 0, 0)
+		} else {
+			g.Count("steered:drain-while-parked")
+			g.Op("gate", "1 %d", 300)
+		}
+		g.Op("fin", "")
+	}
 	for c := 0; c < g.N; c++ {
 		g.Case()
 		// mood of the case: 0 calm (everything must be acked), 1 saturation, 2 faults, 3 fence (drain/stop mid-traffic)
@@ -275,6 +298,22 @@ func c28Frame(kind byte, seq uint64, plen int) []byte {
 		b[10+i] = byte(seq) + byte(i)
 	}
 	return b
+}
+
+// c28GatedSession parks the first ID() call made while it is armed.
+type c28GatedSession struct {
+	session.Session
+	armed   atomic.Bool
+	entered chan struct{}
+	release chan struct{}
+}
+
+func (g *c28GatedSession) ID() uint64 {
+	if g.armed.CompareAndSwap(true, false) {
+		close(g.entered)
+		<-g.release
+	}
+	return g.Session.ID()
 }
 
 // ---------------------------------------------------- handler + usecase ---
@@ -549,6 +588,13 @@ func (r *c28Runner) Step(op string) string {
 		}
 		r.runPhase(uint64(a[0]), int(a[1]), int(a[2]), int(a[3]), int(a[4]), int(a[5]), int(a[6]), int(a[7]))
 		return r.log.take()
+	case "gate":
+		a, ok := atoiAll(f[1:])
+		if !ok || len(a) != 2 || a[0] < 0 || a[0] > 1 || a[1] < 0 || a[1] > 5000 || r.srv == nil {
+			return "bad-op"
+		}
+		r.runGate(a[0] == 1, time.Duration(a[1])*time.Millisecond)
+		return r.log.take()
 	case "fin":
 		if len(f) != 1 || r.srv == nil {
 			return "bad-op"
@@ -661,6 +707,50 @@ func (r *c28Runner) runPhase(seed uint64, nsess, burst, hlat, failpct, closepct,
 		}
 	}
 	wg.Wait()
+}
+
+func (r *c28Runner) runGate(withDrain bool, wait time.Duration) {
+	r.phase.Store(&c28Phase{seed: 7})
+	h := r.fac.handler
+	c := &c28Conn{id: uint64(len(r.conns) + 1), log: r.log}
+	r.conns = append(r.conns, c)
+	r.log.add("O%d", c.id)
+	_ = h.OnOpen(c)
+	gs := &c28GatedSession{entered: make(chan struct{}), release: make(chan struct{})}
+	if !r.srv.VerifWrapSession("l", c.id, func(s session.Session) session.Session { gs.Session = s; return gs }) {
+		return
+	}
+	gs.armed.Store(true)
+	sent := make(chan struct{})
+	go func() {
+		defer close(sent)
+		r.log.add("S%d:1", c.id)
+		_ = h.OnData(c, c28Frame('S', 1, 3))
+	}()
+	parked := false
+	select {
+	case <-gs.entered:
+		parked = true
+	case <-sent: // nobody asked for ID() (single shard, rejected, ...): nothing to steer
+	case <-time.After(20 * time.Second):
+	}
+	gs.armed.Store(false)
+	if parked && withDrain && !r.stopped {
+		drained := make(chan struct{})
+		go func() { defer close(drained); r.drain(2*time.Minute, false) }()
+		select {
+		case <-drained: // only possible if the parked submit is invisible to the drain
+		case <-time.After(wait):
+		}
+		close(gs.release)
+		<-drained
+	} else {
+		if parked {
+			time.Sleep(wait / 4)
+		}
+		close(gs.release)
+	}
+	<-sent
 }
 
 // drain logs D0, calls DrainSends, logs D1:<ok|to|gone>. With watchdog=true the wait is
